@@ -288,7 +288,10 @@ void vf::run_case(Src &s, Ctx &c)
                 if (prevExact)
                 {
                     VCHECK(c, !approx, "C03/resume-lost-exact" + pkey, "%s: the query had an exact solution, after another solve() the best one is approximate", pi.name);
-                    if (pi.optimizing)
+                    // planners that defer cost propagation (RRT#, RRTX, LBTRRT, ...) rank their solutions by stored costs that may exceed the true
+            // ones (C04): a new top solution with a better stored cost can be truly longer than the old one. Seen at eight times the
+            // quick case count once the epilogue made "continued solve after a solution" common; the length clause is for the others.
+            if (pi.optimizing && !pi.deferredCost)
                         VCHECK(c, len <= prevLen * (1 + 1e-9) + 1e-9, "C03/resume-worse" + pkey, "%s: best solution length grew from %.9g to %.9g on a resumed solve", pi.name,
                                prevLen, len);
                 }
